@@ -587,20 +587,109 @@ def translate():
         ok = ('reader = getreader(*args, format=format, **kwds)' in srcs and 'reader = getreaderdict()[format]' in srcs
               and 'outfile = reader(*args, **kwds)' in srcs)
     ob('pncopen: auto -> getreader, named -> getreaderdict()[format], then reader(*args, **kwds) (Auto / Named steps)', ok, 'body changed')
+    out += _gen_registry_src(tree, fns, un, ob)
     return out
 
 
-LEVEL_TEXT = ('Theorems (Props/C15.v, all closed under the global context) over a state-machine model of the reader registry (Model/Registry.v) '
-              'describing the repaired getreader (`_myreaders = list(_readers)`), for every accept relation, registry and history (induction): an '
-              'open never changes the registry (C15_getreader_pure, C15_registry_unchanged, C15_registry_length_constant), every open of any history '
-              'selects what a fresh process selects (C15_history_independent, C15_probe_after_history: the first clause at full strength), a telling '
-              'extension always selects the named reader (C15_telling_extension_selects_named), a file claimed by exactly one registered class is '
-              'detected as that class under any suffix after any history (C15_sole_claimant_any_history) and there auto = named '
-              '(C15_auto_equals_named_partial); the second clause is refuted for files several classes claim (C15_auto_equals_named_refuted, '
-              'vm_compute; replays on the library = known finding C15-auto-not-named). Tie H: every history in a fresh interpreter, every step vs. the '
-              'model on the measured accept matrix (selected class / escaping exception, registry length per step, final registry) and vs. a '
-              'fresh-interpreter open of the same file (class, dimensions, per-variable digests); tie T: 10 AST anchors of _getreader.py. The '
-              'witnesses of the repaired defects run first on every run (corpus/C15).')
+def _gen_registry_src(tree, fns, un, ob):
+    """Read every decision the model's step depends on off the source and write it as the record Gen/RegistrySrc.v
+    src_getreader; Props/C15.v proves `generic_step src_getreader = impl_step` and `generic_register src_getreader =
+    impl_register` against it, so an edit of the source changes the term the kernel checks.  Unrecognised forms give a
+    sentinel (position 99 / the other boolean) that makes those proofs fail, plus a broken obligation here."""
+    import ast
+    from harness import common as C
+    res = []
+    vals = dict(private_copy=None, insert_pos=None, dict_last=None, named_dict=None, reg_pos=None, reg_if_new=None)
+    g = fns.get('getreader')
+    if g is not None:
+        for n in ast.walk(g):
+            if isinstance(n, ast.Assign) and un(n.targets[0]) == '_myreaders':
+                v = un(n.value)
+                if v in ('list(_readers)', '_readers[:]', '_readers.copy()'):
+                    vals['private_copy'] = True if vals['private_copy'] in (None, True) else vals['private_copy']
+                elif v == '_readers':
+                    vals['private_copy'] = False
+            if isinstance(n, ast.Call) and un(n.func) == '_myreaders.insert' and len(n.args) == 2 and un(n.args[1]) == '(ext, rdict[ext])':
+                if isinstance(n.args[0], ast.Constant) and isinstance(n.args[0].value, int) and n.args[0].value >= 0:
+                    vals['insert_pos'] = n.args[0].value
+    d = fns.get('getreaderdict')
+    if d is not None and [un(b) for b in d.body] == ['return dict(_readers)']:
+        vals['dict_last'] = True
+    o = fns.get('pncopen')
+    if o is not None and 'reader = getreaderdict()[format]' in [un(n) for n in ast.walk(o) if isinstance(n, ast.Assign)]:
+        vals['named_dict'] = True
+    r = fns.get('registerreader')
+    if r is not None:
+        ins = [n for n in ast.walk(r) if isinstance(n, ast.Call) and un(n.func) == '_readers.insert' and len(n.args) == 2 and un(n.args[1]) == '(name, reader)']
+        if len(ins) == 1 and isinstance(ins[0].args[0], ast.Constant) and isinstance(ins[0].args[0].value, int) and ins[0].args[0].value >= 0:
+            vals['reg_pos'] = ins[0].args[0].value
+        for n in ast.walk(r):
+            if isinstance(n, ast.If) and un(n.test) == 'name not in [k for k, v in _readers]' and ins and ins[0] in list(ast.walk(n.body[0])):
+                vals['reg_if_new'] = True
+    for k, v in vals.items():
+        ob('Gen/RegistrySrc.v: %s read off _getreader.py' % k, v is not None, 'form not recognised: sentinel written, C15_source_is_model will not check')
+    b = lambda x, sentinel: 'true' if x is True else ('false' if x is False else sentinel)
+    nat = lambda x: '%d' % (99 if x is None else x)
+    text = ('(* GENERATED by harness/props/c15.py translate() from %s on every run - do not edit.\n'
+            '   private_copy=%r insert_pos=%r dict_last_wins=%r named_uses_dict=%r register_pos=%r register_if_new=%r *)\n'
+            'From PNC Require Import Base.Util Model.Registry.\n'
+            'Definition src_getreader : getreader_src := GSrc %s %s %s %s %s %s.\n') % (
+        'src/PseudoNetCDF/_getreader.py', vals['private_copy'], vals['insert_pos'], vals['dict_last'], vals['named_dict'],
+        vals['reg_pos'], vals['reg_if_new'],
+        b(vals['private_copy'], 'false'), nat(vals['insert_pos']), b(vals['dict_last'], 'false'), b(vals['named_dict'], 'false'),
+        nat(vals['reg_pos']), b(vals['reg_if_new'], 'false'))
+    path = os.path.join(C.COQ, 'Gen', 'RegistrySrc.v')
+    os.makedirs(os.path.dirname(path), exist_ok=True)
+    if not os.path.exists(path) or open(path).read() != text:
+        with open(path, 'w') as f:
+            f.write(text)
+    # class creation: PseudoNetCDFType.__init__ registers the short name, then the long name, for every class but the two bases
+    try:
+        t2 = ast.parse(open(os.path.join(C.SRC, 'PseudoNetCDF', 'core', '_files.py')).read())
+        cls = [n for n in t2.body if isinstance(n, ast.ClassDef) and n.name == 'PseudoNetCDFType'][0]
+        init = [n for n in cls.body if isinstance(n, ast.FunctionDef) and n.name == '__init__'][0]
+        st = [un(n) for n in ast.walk(init) if isinstance(n, (ast.Assign, ast.If))]
+        okc = ('shortl = registerreader(name, cls)' in st and 'longl = registerreader(longname, cls)' in st and
+               st.index('shortl = registerreader(name, cls)') < st.index('longl = registerreader(longname, cls)') and
+               any(x.startswith('if len(cls.mro()) > 2:') for x in st) and any(x.startswith("if name not in ('PseudoNetCDFFile', 'WrapPnc'):") for x in st))
+        ob('core/_files.py PseudoNetCDFType.__init__: registerreader(name, cls) then registerreader(longname, cls) (impl_class_created)', okc, 'changed')
+        tail = [un(n) for n in t2.body if isinstance(n, ast.Expr)]
+        ob("core/_files.py module level: registerreader('nc', netcdf); registerreader('ncf', netcdf)",
+           "registerreader('nc', netcdf)" in tail and "registerreader('ncf', netcdf)" in tail, 'changed')
+    except Exception as e:
+        ob('core/_files.py PseudoNetCDFType.__init__', False, str(e)[:200])
+    return res
+
+
+# isMine overlaps of the shipped sample formats, measured 2026-10-02 with the accept matrix (suffix-less copies; registry order;
+# the isMine-less fallback 'Dataset' omitted).  By C15_auto_is_named_iff the second clause holds for a suffix-less file exactly
+# when the reader registered under the format's name is the FIRST of its row.
+OVERLAPS = {
+    'one3d layout (humidity, vertical_diffusivity, temperature, height_pressure samples)':
+        ['vertical_diffusivity', 'humidity', 'one3d'],      # all three inherit one3d.isMine; the layouts are byte-identical, nothing in
+                                                            # the file says which: clause 2 fails for humidity (finding C15-auto-not-named)
+    'netCDF classic / HDF5 (plain)': ['gcnc', 'netcdf'],    # gcnc inherits netcdf.isMine; same dimensions and data presented
+    'IOAPI netCDF': ['gcnc', 'ioapi', 'netcdf'],            # as above: class differs (gcnc), data identical
+    'WRF netCDF': ['wrf', 'gcnc', 'netcdf'],
+    'bpch': ['bpch', 'bpch2', 'bpch1'],                     # 'bpch' is first and is the named reader
+    'uamiv': ['uamiv'], 'lateral_boundary': ['lateral_boundary'], 'ffi1001': ['ffi1001'],
+    'no claimant (auto-detection falls through to netCDF4.Dataset and raises)':
+        ['point_source', 'wind', 'landuse', 'cloud_rain', 'csv', 'tomsl3', 'ceilometer', 'griddesc', 'profiles', 'net_balance'],
+}
+
+LEVEL_TEXT = ('Theorems (Props/C15.v, 19, all closed under the global context) over a state-machine model of the reader registry (Model/Registry.v) '
+              'describing the repaired getreader, for every accept relation, registry and history (induction): an open never changes the '
+              'registry (C15_getreader_pure, C15_registry_unchanged, C15_registry_length_constant), every open of any history selects what a fresh '
+              'process selects (C15_history_independent, C15_probe_after_history), named opens likewise; the loop is specified relationally '
+              '(C15_first_accepting_selected / _raised: first non-rejecting reader decides); second clause: exact characterisation '
+              '(C15_auto_is_named_iff), telling extension and sole claimant as corollaries (C15_telling_extension_selects_named, '
+              'C15_sole_claimant_any_history, C15_auto_equals_named_partial), refuted for files several classes claim '
+              '(C15_auto_equals_named_refuted = finding C15-auto-not-named); registration: known names never change meaning, names stay distinct, '
+              'dict = list lookup (C15_register_*, C15_distinct_names_dict_is_list). Tie T: Gen/RegistrySrc.v (alias-or-copy, insert position, '
+              'dict(_readers), getreaderdict()[format], registerreader guard and position) is re-read from _getreader.py on every run and '
+              'C15_source_is_model / C15_source_register_is_model are re-checked against it; 18 further AST anchors incl. PseudoNetCDFType.__init__. '
+              'Tie H: every history in a fresh interpreter, every step vs. the model on the measured accept matrix (selected class / escaping '
+              'exception, registry length and full registry after every step, distinct names) and vs. a fresh-interpreter open of the same file.')
 LEVEL_NOTE = ('Trusted: Coq kernel + vm_compute; the harness; isMine outcome is a function of (reader class, file) (measured once per file in a fresh '
               'interpreter; F on every step tests it); presentations compared by sha1 digests. Not modelled: what a reader class presents for a file '
               '(abstract id), spontaneous GC timing, registration by class creation after import (none exists in the tree; a mutation doing so is '
